@@ -15,3 +15,13 @@ func Scripts() []Script {
 		{Name: "h-pages-N2", QB: 2, TB: 3, Dse1: true, N: 2, MP: 2, Threads: [][]SOp{{sM}, {{Kind: "answer", P: 1}}, {{Kind: "spurious", K: 7}}}},
 	}
 }
+
+// CloseScripts are the handler-level scenarios with a closer thread (C16).
+func CloseScripts() []Script {
+	sM := SOp{Kind: "sendM"}
+	return []Script{
+		{Name: "hclose-sender-closer", N: 2, MP: 1, QB: 2, TB: 3, Threads: [][]SOp{{sM, {Kind: "recv"}}, {{Kind: "close"}}}},
+		{Name: "hclose-sender-responder-closer", N: 2, MP: 1, QB: 2, TB: 3, Threads: [][]SOp{{sM, {Kind: "recv"}}, {{Kind: "answer"}}, {{Kind: "close"}}}},
+		{Name: "hclose-2closers", N: 1, MP: 1, QB: 2, TB: 3, Threads: [][]SOp{{sM}, {{Kind: "close"}}, {{Kind: "close"}}}},
+	}
+}
